@@ -104,6 +104,8 @@ PROPS["C18"] = dict(
                "the end segments, the result is that segment's straight line; table value at a node), wmedian (index safety, "
                "termination condition, and at the return: the result is the value at the first sorted position whose cumulative "
                "weight reaches half the total) and the 1-d wmom (mean, both error estimates, deviation, supplied mean, shape error) "
+               "and the unweighted sigma_clip (the mean, deviation and error returned are those of exactly the reported subset, "
+               "which is a non-empty increasing selection of positions of the input; the clipping rule itself is bounded) "
                "are verified for all inputs over the reals. sigma_clip, get_stats, N-by-d wmom and the cov/cor round trip are "
                "compared, bounded and labelled, with direct evaluation of the statement.",
     level_note="Trusted: esvc, z3; floats are reals (rounding of sums not modelled); numpy sum is an uninterpreted function of the "
@@ -317,12 +319,14 @@ PROPS["C03"] = dict(
                "chunks whose field count, names, types or sub-array shapes differ (binary: exact dtype; text: byte order ignored) "
                "and accepts the others; SFile.write performs the check before anything is written, so a rejected append changes "
                "neither the handle nor (through the assumed callee contracts) the file; _update_size adds the chunk's row count to "
-               "the cached count, the header dict and the SIZE line. Bounded: random histories over create / write again / close / "
+               "the cached count, the header dict and the SIZE line; SFile.open with mode 'r+' on a missing path switches the "
+               "handle to 'w', never calls the header reader (whose assumed contract requires an existing file) and opens the "
+               "record file with 'w', and mode 'w' never reads a header. Bounded: random histories over create / write again / close / "
                "append by reopening / append to a missing file / overwrite / incompatible append (five kinds), binary and three "
                "delimiters, read back and header compared after every step, file bytes compared around every rejected append.",
     level_note="Assumed contracts: Records.update_row_count (rewrites the SIZE line with the given count), Recfile.write (appends "
-               "the rows at the end of the file). Mode selection in SFile.open (append to a missing file) is covered by the bounded "
-               "oracle only.",
+               "the rows at the end of the file), SFile.read_header (needs an existing file), Recfile.__init__ (remembers the mode; "
+               "'w' creates or truncates). File existence is an uninterpreted predicate of the path, stable during a call.",
     explanation="Mixed, reported separately: obligations discharged for the Python bookkeeping; histories are a bounded oracle.",
     limit_quick=400, limit_thorough=20000)
 
@@ -375,7 +379,9 @@ PROPS["C12"] = dict(
                "and cosine are the spherical sine/cosine-rule expressions (atan2 form); Matcher.match raises ValueError exactly "
                "when ra/dec sizes differ or the radius is neither one value nor one per point, so the C++ matcher is only "
                "called with one declination per right ascension and a readable radius for every point, and never writes the "
-               "caller's arrays. Bounded: all-pairs brute force in long double for uniform / clustered (1e-4..30 deg) / polar / "
+               "caller's arrays; HTM.match returns what the reusable Matcher built from the second set at the object's depth "
+               "returns for the same first set, radii and maxmatch (the pairs as an uninterpreted function of exactly these). "
+               "Bounded: all-pairs brute force in long double for uniform / clustered (1e-4..30 deg) / polar / "
                "seam / octant-boundary sets with duplicates and self-matching, radii 0, 1e-6 .. 180 degrees and per-point radii, "
                "depths 1..13, maxmatch in {-1,0,1,2,3,1000}, byte-swapped and strided inputs: exact pair set, once each, grouped "
                "and sorted, reported separation to 1e-9 degree, k closest, file == memory, Matcher == HTM.match, depth independence.",
